@@ -40,6 +40,7 @@ def dispatch (j : Json) : Except String Json := do
   | "graphmetrics" => handleGraphMetrics j
   | "descriptive" => handleDescriptive j
   | "acc_truth" => handleAccTruth j
+  | "acc_sql" => handleAccSql j
   | "acc_errors" => handleAccErrors j
   | "acc_prepare" => handleAccPrepare j
   | "ser_save" => handleSerSave j
